@@ -3,6 +3,7 @@ package srvworld
 import (
 	"fmt"
 	"os"
+	"strconv"
 	"strings"
 	"testing"
 	"testing/synctest"
@@ -280,10 +281,23 @@ func runTCPProp(t *testing.T, id string, hostile bool, nontrivial func(*Stats) b
 		if err := vkit.LoadJSON(f, &rf); err != nil || rf.Script == nil {
 			t.Fatalf("bad regress file %s: %v", f, err)
 		}
-		res := runTCPCase(t, rf.Script)
-		account(rf.Script, res, "")
-		if kind, msg := judgeTCP(r, id, res); kind != "" {
-			r.Violate(kind, "regress "+f+": "+msg, mkTReplay(rf.Script, res))
+		reps := 1
+		if strings.Contains(f, "sched-") {
+			reps = 8 // the outcome depends on which goroutine runs first at one virtual instant
+		}
+		if i := strings.Index(f, "/sched"); i >= 0 {
+			if n, _ := strconv.Atoi(strings.SplitN(f[i+6:], "-", 2)[0]); n > 0 {
+				reps = n // ... and for some the window is a few instructions wide
+			}
+		}
+		for i := 0; i < reps; i++ {
+			res := runTCPCase(t, rf.Script)
+			account(rf.Script, res, "")
+			if kind, msg := judgeTCP(r, id, res); kind != "" {
+				r.Violate(kind, "regress "+f+": "+msg, mkTReplay(rf.Script, res))
+
+				break
+			}
 		}
 	}
 	if r.Violations() > 0 {
